@@ -537,7 +537,7 @@ def _lwsp(root: RefNode):
       nxt = seq[i + 1] if i + 1 < len(seq) else None
       if nxt is None or nxt.kind == "Br" or (nxt.text and nxt.text[0] in "\r\n"):
         n.text = n.text[:-1]
-  if mixed or root.kind in ("Rt", "Rtc"):
+  if mixed:
     for n in nodes:
       n.ws_certain = False
   for n in nodes:
